@@ -10,7 +10,7 @@ cfg = {'shape': [2, 3, 2], 'hasw': True, 'op': 'cp', 'rank': [2], 'bad': 'none',
        'fshapes': [[2, 2], [3, 2], [2, 2]], 'wlen': 2, 'coreshape': [], 'pshapes': [], 'dl': 0, 'pden': 1, 'skip': -1, 'tr': False, 'modes': [],
        'mix': 'none', 'dens': [1, 1, 1], 'cden': 1, 'imk': 0, 'outdtype': 'float64', 'dtypes': ['float64'] * 3,
        'late': False, 'mag': 0, 'bfshapes': [], 'bcoreshape': [], 'bpshapes': [], 'bwlen': 0,
-       'wshape': [2], 'tmag': 0, 'zero': 'none', 'alldtype': 'float64', 'pnear': 0}
+       'wshape': [2], 'tmag': 0, 'zero': 'none', 'alldtype': 'float64', 'pnear': 0, 'callform': 'pos', 'alias': False, 'vals': 'plain'}
 ev = c03.execute({"id": "good", "cfg": cfg, "seed": 1, "k": 0, "draw": 0})
 evs = [ev]
 def mut(name, f):
@@ -65,11 +65,14 @@ e24["runs"]["core_object"]["norm"]["q6"] = int(round(e24["runs"]["core_object"][
 cfg13 = dict(cfg4, bad="fcols", at=1, dl=-1, skip=1, fshapes=[[2, 1], [3, 1], [2, 2]])      # invalid pair, factor 1 applied, factor 2 skipped
 e25 = c03.execute({"id": "optbad_good", "cfg": cfg13, "seed": 1, "k": 0, "draw": 0}); evs.append(e25)
 e26 = copy.deepcopy(e25); e26["id"] = "optbad_converted"; e26["runs"]["einsum_convert"]["rejected"] = False; evs.append(e26)
+cfg14 = dict(cfg, shape=[2, 2, 3], fshapes=[[2, 2], [2, 2], [3, 2]], alias=True, vals="subnormal", callform="kw")    # two factors are one array; tiny zeros
+e27 = c03.execute({"id": "alias_good", "cfg": cfg14, "seed": 1, "k": 0, "draw": 0}); evs.append(e27)
+e28 = copy.deepcopy(e27); e28["id"] = "alias_broken"; e28["in"]["fs"][e28["in"]["aliased"][1] - 1]["data"][0] += 1; evs.append(e28)
 rej = chk.validate("FactorizedTrace", evs)
 for r in sorted(rej): print(r)
 print("machinery:", chk.machinery)
 good = {"good", "inv_good", "inv_p2_good", "opt_good", "mix_good", "late_good", "late_inv_good", "mag_good", "wshape_good", "zero_good", "tmag_good",
-        "pnear_good", "optbad_good"}
+        "pnear_good", "optbad_good", "alias_good"}
 ids = {r[0] for r in rej}
 assert not chk.machinery and not (ids & good) and len(ids) == len(evs) - len(good), ("self-test failed", ids & good)
 print("OK: %d corrupted events rejected, %d genuine events accepted" % (len(ids), len(good)))
